@@ -306,6 +306,10 @@ class Fn:
                 return ("fnitem", c["fn"])
             if "param" in c:
                 return ("cparam", c["param"])
+            if "promoted" in c and isinstance(c["promoted"], int) and not isinstance(c["promoted"], bool):
+                pe = self.promoted_expr(c["promoted"])
+                if pe is not None:
+                    return pe
             v = c.get("val")
             if isinstance(v, dict):
                 return ("const", v.get("variant"), c.get("def"), c["ty"])
@@ -316,6 +320,19 @@ class Fn:
             return ("rt", o["rt"])
         p = op_place(o)
         return self.expr_of_place(p, depth, at)
+
+    def promoted_expr(self, idx):
+        proms = self.b.get("promoted") or []
+        if idx >= len(proms):
+            return None
+        pb = proms[idx]
+        pseudo = {"path": self.path + "::{promoted#%d}" % idx, "blocks": pb["blocks"], "arg_count": 0,
+                  "debug": [], "locals": pb["locals"], "loc": self.b["loc"], "promoted": []}
+        try:
+            pf = Fn(pseudo)
+            return pf.expr_of_local(0)
+        except Exception:
+            return None
 
     def expr_of_place(self, p, depth=0, at=None):
         base = self.expr_of_local(p["l"], depth, at)
